@@ -665,6 +665,28 @@ func (f *FnEnc) execSlice(v *ssa.Slice) {
 		}
 		f.safety("slice", tAnd(tLe(tInt(0), lo), tLe(lo, hi), tLe(hi, max), tLe(max, n)), v.Pos(), "")
 		f.set(v, SliceV{app(SInt, "arrslice", p), lo, tSub(hi, lo), tSub(max, lo)})
+		// the full slice a[:] of a byte array reads as the array's content (the array is held as
+		// one value; see arrStr)
+		if b := basicOf(arr.Elem()); b != nil && b.Kind() == types.Uint8 && !has(v.Low) && !has(v.High) && p.S != "" {
+			func() {
+				defer func() {
+					if r := recover(); r != nil {
+						if _, ok := r.(unsupported); !ok {
+							panic(r)
+						}
+					}
+				}()
+				if av, ok := e.loadAt(f.st, p, xt.Elem()).(Term); ok {
+					es, _ := e.scalarSort(arr.Elem())
+					cp := e.cellComp(arr.Elem(), leaf{"", es, arr.Elem()})
+					fn := "|str-of " + typeKey(arr.Elem()) + "|"
+					e.declFun(fn, []Sort{cp.Sort, SInt, SInt, SInt}, SStr)
+					sl := app(SStr, fn, e.lookup(f.st, cp), app(SInt, "arrslice", p), lo, n)
+					f.assume(tEq(sl, e.arrStr(av)))
+					f.assume(tEq(app(SInt, "strlen", sl), n))
+				}
+			}()
+		}
 	default:
 		e.unsup("slice of %s", v.X.Type())
 	}
